@@ -45,6 +45,10 @@ type c11Packet struct {
 	Channel      string `json:"channel,omitempty"`     // destination channel (coins returning home; vouchers fix their channel)
 	SrcChannel   string `json:"src_channel,omitempty"` // the counterparty's channel id, independent of the destination channel ("" = channel-9)
 	Amount       string `json:"amount"`
+	// how the packet spells the amount: "" decimal | octal ("0" + octal digits) | hex ("0x…") | binary ("0b…") | underscore
+	// ("1_000…") | plus ("+…").  The transfer module reads the string with sdkmath.NewIntFromString, which takes the base
+	// from the prefix; the amount it credits is what onboarding must work with.
+	Spelling     string `json:"spelling,omitempty"`
 	BadSender    bool   `json:"bad_sender,omitempty"`
 	BadRecipient bool   `json:"bad_recipient,omitempty"`
 	Pres         string `json:"pres,omitempty"` // bech32 prefix of the recipient string ("" = canto)
@@ -52,6 +56,34 @@ type c11Packet struct {
 	Plan c04Plan `json:"plan"`
 	// done before the packet arrives
 	Before []c11Prep `json:"before,omitempty"`
+}
+
+// c11Spell writes the amount the way the packet asks for; a spelling the transfer module would not read as the same
+// number is replaced by the decimal one (counted)
+func c11Spell(e *Env, amt *big.Int, how string) string {
+	s := amt.String()
+	switch how {
+	case "octal":
+		s = "0" + amt.Text(8)
+	case "hex":
+		s = "0x" + amt.Text(16)
+	case "binary":
+		s = "0b" + amt.Text(2)
+	case "underscore":
+		if len(s) > 1 {
+			s = s[:1] + "_" + s[1:]
+		}
+	case "plus":
+		s = "+" + s
+	}
+	if how != "" {
+		if v, ok := sdkmath.NewIntFromString(s); !ok || v.BigInt().Cmp(amt) != 0 {
+			e.Stats.Count("amount-spelling:" + how + ":not-read-as-the-same-number")
+			return amt.String()
+		}
+		e.Stats.Count("amount-spelling:" + how)
+	}
+	return s
 }
 
 type c11PoolSpec struct {
@@ -232,7 +264,7 @@ func (w *c11World) c11Exec(e *Env, kase *c11Case, gen func(ctx sdk.Context, i in
 			credited = nil
 			rcptTerm = "None"
 		}
-		packet := w.c11Packet(d, pk.SrcChannel, pk.Channel, amt.String(), sender, receiver)
+		packet := w.c11Packet(d, pk.SrcChannel, pk.Channel, c11Spell(e, amt, pk.Spelling), sender, receiver)
 		ackIn := channeltypes.NewResultAcknowledgement([]byte{byte(1 + i%250)})
 
 		guarded := !pk.Enabled || !c11Contains(pk.Whitelist, packet.DestinationChannel) || isModule
@@ -752,6 +784,9 @@ func runC11(e *Env) {
 				amt = big.NewInt(1)
 			}
 			pk.Amount = amt.String()
+			if e.Chance(0.12) {
+				pk.Spelling = []string{"octal", "hex", "binary", "underscore", "plus"}[e.Pick(5)]
+			}
 			switch e.Pick(30) {
 			case 0:
 				pk.BadSender = true
